@@ -35,6 +35,7 @@ this host, and /scheduled is deleted only while this host's placement node
 exists; thorough: writers of running / endpoint / identity nodes are the owner
 modules. Fourth round: C17.5 running / endpoint / identity nodes are deleted
 in presence.py only by the owner-checked unregister routines.
+Sweep: C17.2 _safe_create claims success only for a node it created or one its own session owns (also when the answer travels through a local), answers plain True / False, and the wait callback retries only when the other node is gone.
 Does NOT decide interleavings of two sessions with expiry (schedules).
 """
 
